@@ -1,0 +1,19 @@
+#ifndef ASL_VERIF_HOOKS_H
+#define ASL_VERIF_HOOKS_H
+
+// Schedule points for the verification harness in /verif. Only compiled with -DASL_VERIF.
+
+#ifdef ASL_VERIF
+
+enum { ASL_VP_ATOMIC = 1, ASL_VP_THREAD_END = 2, ASL_VP_FLAG = 3 };
+
+#ifdef ASL_VERIF_NOSCHED
+static inline void asl_verif_point(int, const void*) {}
+static inline void asl_verif_spin(const volatile void*) {}
+#else
+extern "C" void asl_verif_point(int kind, const void* obj);  // the running thread may be preempted here
+extern "C" void asl_verif_spin(const volatile void* flag);   // busy-wait iteration: let other threads run
+#endif
+
+#endif
+#endif
